@@ -187,6 +187,24 @@ def r3_cartesian(idx, r):
     r.require(sum(1 for n in walk_local(f.node) if isinstance(n, ast.Raise)) >= 2, "unsupported-symmetries-raise", f, msg="unsupported symmetry conditions must raise")
 
 
+def displacement_rotation(idx, r):
+    """the displacement vector of a rotated block turns with the same counter-clockwise matrix, by the angle of THIS rotation (shared with C13)"""
+    dp = idx.method("armi.reactor.blocks.HexBlock", "_rotateDisplacement")
+    sx = {s.attr: s.value for s in iter_stores(dp.node) if s.chain in ("self.p.displacementX", "self.p.displacementY")}
+    E = ExprEval(env={"dispx": Poly.atom("x"), "dispy": Poly.atom("y")}, calls=lambda n, ev: Poly.atom(dotted(n.func).split(".")[-1]) if dotted(n.func) in ("math.cos", "math.sin") and norm(n.args[0]) == dp.params()[1] else None, opaque=False)
+    X, Y, C, S = Poly.atom("x"), Poly.atom("y"), Poly.atom("cos"), Poly.atom("sin")
+    okd = "displacementX" in sx and "displacementY" in sx and E.ev(sx["displacementX"]) == X * C - Y * S and E.ev(sx["displacementY"]) == X * S + Y * C
+    r.require(okd, "displacement:same-ccw-rotation", dp, msg="the displacement vector rotates with the same counter-clockwise matrix")
+    ang = dp.params()[1]
+    rebound = [s_ for s_ in iter_stores(dp.node) if isinstance(s_.node, ast.Name) and s_.attr == ang]
+    r.require(not rebound, "displacement:angle-is-this-rotation", dp, node=rebound[0].stmt if rebound else None,
+              msg=f"the angle applied to the displacement is re-assigned (`{norm(rebound[0].stmt) if rebound else ang}`) instead of being the angle of THIS rotation: from the second rotation of a block on, the displacement turns by the accumulated orientation, not by the step")
+    hb = idx.method("armi.reactor.blocks.HexBlock", "rotate")
+    cd = [c for c in iter_calls(hb.node) if dotted(c.func) == "self._rotateDisplacement"]
+    r.require(len(cd) == 1 and len(cd[0].args) == 1 and norm(cd[0].args[0]) == hb.params()[1], "displacement:called-with-this-rotation", hb, node=cd[0] if cd else None,
+              msg="HexBlock.rotate hands its own angle to _rotateDisplacement")
+
+
 def r4_block_rotation(idx, r):
     rt = idx.method("armi.reactor.blocks.HexBlock", "rotate")
     rn = [s for s in iter_stores(rt.node) if s.attr == "rotNum"]
@@ -230,20 +248,8 @@ def r4_block_rotation(idx, r):
     leaves = {norm(c[0][-1][0]): norm(c[1][0]) for c in if_chain(pf.node) if c[0][-1][1]}
     r.require(leaves == {"isinstance(items, np.ndarray)": "return np.concatenate((items[position:], items[:position]))", "isinstance(items, list)": "return items[position:] + items[:position]"}, "pivot:first-axis", pf,
               msg=f"pivot moves the first `position` entries (rows) to the end for lists and arrays alike: {leaves}")
+    displacement_rotation(idx, r)
     dp = idx.method("armi.reactor.blocks.HexBlock", "_rotateDisplacement")
-    sx = {s.attr: s.value for s in iter_stores(dp.node) if s.chain in ("self.p.displacementX", "self.p.displacementY")}
-    E = ExprEval(env={"dispx": Poly.atom("x"), "dispy": Poly.atom("y")}, calls=lambda n, ev: Poly.atom(dotted(n.func).split(".")[-1]) if dotted(n.func) in ("math.cos", "math.sin") and norm(n.args[0]) == dp.params()[1] else None, opaque=False)
-    X, Y, C, S = Poly.atom("x"), Poly.atom("y"), Poly.atom("cos"), Poly.atom("sin")
-    okd = "displacementX" in sx and "displacementY" in sx and E.ev(sx["displacementX"]) == X * C - Y * S and E.ev(sx["displacementY"]) == X * S + Y * C
-    r.require(okd, "displacement:same-ccw-rotation", dp, msg="the displacement vector rotates with the same counter-clockwise matrix")
-    ang = dp.params()[1]
-    rebound = [s_ for s_ in iter_stores(dp.node) if isinstance(s_.node, ast.Name) and s_.attr == ang]
-    r.require(not rebound, "displacement:angle-is-this-rotation", dp, node=rebound[0].stmt if rebound else None,
-              msg=f"the angle applied to the displacement is re-assigned (`{norm(rebound[0].stmt) if rebound else ang}`) instead of being the angle of THIS rotation: from the second rotation of a block on, the displacement turns by the accumulated orientation, not by the step")
-    hb = idx.method("armi.reactor.blocks.HexBlock", "rotate")
-    cd = [c for c in iter_calls(hb.node) if dotted(c.func) == "self._rotateDisplacement"]
-    r.require(len(cd) == 1 and len(cd[0].args) == 1 and norm(cd[0].args[0]) == hb.params()[1], "displacement:called-with-this-rotation", hb, node=cd[0] if cd else None,
-              msg="HexBlock.rotate hands its own angle to _rotateDisplacement")
     ha = idx.method("armi.reactor.assemblies.HexAssembly", "rotate")
     r.require("return super().rotate(rad)" in norm(ha.node) and any(isinstance(n, ast.Raise) for n in walk_local(ha.node)) and "rad % (math.pi / 3)" in norm(ha.node), "assembly:sixty-degree-steps-only", ha, msg="assemblies rotate in 60-degree increments only")
     ar = idx.method("armi.reactor.assemblies.Assembly", "rotate")
